@@ -135,13 +135,8 @@ def fmtOut (env : PTN.Env) (o : Out Unit) : String :=
 
 /-! ### gencorpus -/
 
-open Tak.CmdCorpus in
-def solvers (st : St) : Solvers (Tak.DFPN.Solver Move) :=
-  { new := fun att => Tak.DFPN.newSolver att tableEntries
-    prove := fun d p =>
-      match Tak.DFPN.takProveWith st.basis dfpnScale solverFuel d p with
-      | .error e => .error e
-      | .ok (r, _, d) => .ok (r, d) }
+def solvers (st : St) : Tak.CmdCorpus.Solvers (Tak.DFPN.Solver Move) :=
+  Tak.CmdCorpus.takSolvers st.basis dfpnScale solverFuel
 
 def fmtEntry (e : Tak.CmdCorpus.Entry) : String := fmtOptMove e.move ++ ":" ++ e.value.text
 
